@@ -6,7 +6,7 @@ use serde_json::json;
 
 pub const FAMILIES: [&str; 13] = ["seq_if", "nested_if", "seq_match2", "seq_match3", "let_chain_match", "label_critical_pair", "if_in_match", "seq_if_codata", "match_in_args", "case_of_case", "case_of_if", "dtor_of_if", "if_of_case_cond"];
 
-const DECLS: &str = "data List[A] { Nil, Cons(x: A, xs: List[A]) }\ndata Tri { T0, T1(a: i64), T2(a: i64, b: i64) }\ncodata Fun[A, B] { ap(x: A): B }\n";
+const DECLS: &str = "data List[A] { Nil, Cons(x: A, xs: List[A]) }\ndata Tri { T0, T1(a: i64), T2(a: i64, b: i64) }\ncodata Fun[A, B] { ap(x: A): B }\ndata En { E0, E1, E2(a: i64) }\ndata Bl { Tr, Fa }\n";
 
 pub fn family_source(fam: &str, k: usize) -> String {
     let mut body = String::new();
@@ -113,11 +113,11 @@ pub fn family_source(fam: &str, k: usize) -> String {
             body.push_str(&t);
         }
     }
-    format!("{DECLS}def add(p: i64, q: i64): i64 {{ p + q }}\ndef f(n: i64, l: List[i64], w: Tri): i64 {{ {body} }}\ndef main(n: i64): i64 {{ println_i64(f(n, Cons(n, Nil), T2(n, 3))); 0 }}\n")
+    format!("{DECLS}def add(p: i64, q: i64): i64 {{ p + q }}\ndef f(n: i64, l: List[i64], w: Tri, e: En, bb: Bl): i64 {{ {body} }}\ndef main(n: i64): i64 {{ println_i64(f(n, Cons(n, Nil), T2(n, 3), E2(n), Fa)); 0 }}\n")
 }
 
 /// One-hole contexts (hole and result of type i64; `I` is the nesting index, so binders are distinct).
-pub const CONTEXTS: [(&str, &str); 21] = [
+pub const CONTEXTS: [(&str, &str); 28] = [
     ("let_if", "let v@: i64 = if n == @ { n + @ } else { n - @ }; (#) + v@"),
     ("let_case", "let v@: i64 = l.case[i64] { Nil => @, Cons(h, t) => h + @ }; (#) + v@"),
     ("if_then", "if n == @ { # } else { @ }"),
@@ -141,6 +141,16 @@ pub const CONTEXTS: [(&str, &str); 21] = [
     ("let_if_then_ctor_case", "let v@: i64 = if n == @ { 1 } else { 2 }; Cons(v@, Nil).case[i64] { Nil => @, Cons(h@, t@) => h@ + (#) }"),
     ("let_if_then_print", "let v@: i64 = if n == @ { 1 } else { 2 }; (println_i64(v@); #)"),
     ("let_if_then_goto", "label k@ { let v@: i64 = if n == @ { 1 } else { 2 }; goto k@ (v@ + (#)) }"),
+    // matches over types with several field-less constructors (clauses without binders)
+    ("let_enum_case", "let v@: i64 = e.case { E0 => @, E1 => n + @, E2(a@) => a@ + @ }; (#) + v@"),
+    ("let_bool_case", "let v@: i64 = bb.case { Tr => @, Fa => n + @ }; (#) + v@"),
+    ("clause_enum", "e.case { E0 => @, E1 => #, E2(a@) => a@ }"),
+    // label blocks whose body does not branch at top level, with a non-leaf continuation: bound by a
+    // let (integer and data type), as scrutinee, as receiver
+    ("let_label_plain", "let v@: i64 = label k@ { 1 + (if n == @ { goto k@ (@) } else { n }) }; (#) + v@"),
+    ("let_label_data", "let o@: Tri = label k@ { T1(if n == @ { goto k@ (T0) } else { n }) }; o@.case { T0 => @, T1(a@) => #, T2(a@, b@) => @ }"),
+    ("label_scrutinee", "(label k@ { Cons(if n == @ { goto k@ (Nil) } else { n }, Nil) }).case[i64] { Nil => @, Cons(h@, t@) => # }"),
+    ("label_receiver", "(label k@ { new { ap(q@) => q@ + (if n == @ { 1 } else { 2 }) } }).ap[i64, i64](#)"),
 ];
 
 /// `k` applications of the contexts `a, b, a, b, ...` around a leaf.
@@ -150,7 +160,7 @@ pub fn context_source(a: usize, b: usize, k: usize) -> String {
         let c = if i % 2 == 0 { CONTEXTS[a].1 } else { CONTEXTS[b].1 };
         t = c.replace('@', &i.to_string()).replace('#', &t);
     }
-    format!("{DECLS}def add(p: i64, q: i64): i64 {{ p + q }}\ndef upto(k: i64): List[i64] {{ if k <= 0 {{ Nil }} else {{ Cons(k, upto(k - 1)) }} }}\ndef f(n: i64, l: List[i64], w: Tri): i64 {{ {t} }}\ndef main(n: i64): i64 {{ println_i64(f(n, Cons(n, Nil), T2(n, 3))); 0 }}\n")
+    format!("{DECLS}def add(p: i64, q: i64): i64 {{ p + q }}\ndef upto(k: i64): List[i64] {{ if k <= 0 {{ Nil }} else {{ Cons(k, upto(k - 1)) }} }}\ndef f(n: i64, l: List[i64], w: Tri, e: En, bb: Bl): i64 {{ {t} }}\ndef main(n: i64): i64 {{ println_i64(f(n, Cons(n, Nil), T2(n, 3), E2(n), Fa)); 0 }}\n")
 }
 
 fn sum_vars(k: usize) -> String {
